@@ -138,7 +138,8 @@ def lookup(qualname, typestr, targs=None):
             continue
         if c.targs is not None and targs is not None and list(c.targs) != list(targs):
             continue
-        if best is None or (c.sig and not best.sig):
+        # a contract tied to this translation unit (the function's own TU) wins over the abstraction other TUs see
+        if best is None or (c.sig and not best.sig) or (c.only_tu and not best.only_tu):
             best = c
     if best is None:
         for pat in INLINE_PATTERNS:
